@@ -25,6 +25,7 @@ func extractSaslPlain(repo, root string) error {
 		return err
 	}
 	var segs []string
+	sprintfArgs := 0
 	nextCompleted := ""
 	for _, d := range f.Decls {
 		fd, ok := d.(*ast.FuncDecl)
@@ -58,6 +59,7 @@ func extractSaslPlain(repo, root string) error {
 						args = append(args, "?")
 					}
 				}
+				sprintfArgs = len(call.Args) - 1
 				segs = formatSegs(format, args)
 				return false
 			})
@@ -72,8 +74,25 @@ func extractSaslPlain(repo, root string) error {
 			})
 		}
 	}
+	// the credentials must be ARGUMENTS of a literal format: exactly the verbs `%s %s` fed by Username, Password
+	nf, names := 0, []string{}
+	for _, sg := range segs {
+		if strings.HasPrefix(sg, ".field ") {
+			nf++
+			names = append(names, strings.Trim(strings.TrimPrefix(sg, ".field "), `"`))
+		}
+	}
+	untranslated := ""
 	if segs == nil {
-		return fmt.Errorf("sasl/plain/plain.go: no fmt.Sprintf with a literal format in Mechanism.Start (untranslated)")
+		untranslated = "no fmt.Sprintf with a LITERAL format string in Mechanism.Start"
+	} else if nf != 2 || names[0] != "Username" || names[1] != "Password" || sprintfArgs != 2 {
+		untranslated = fmt.Sprintf("sasl/plain/plain.go: Mechanism.Start formats %d verbs %v with %d arguments; expected the literal format with exactly two %%s verbs fed by Username, Password", nf, names, sprintfArgs)
+	}
+	if untranslated != "" {
+		// outside the translated subset: the generated definition renders to nothing, so `plain_format_extracted`
+		// no longer checks, while the oracle still builds and the correspondence can look for a failing input
+		fmt.Fprintln(os.Stderr, "saslplain: UNTRANSLATED:", untranslated)
+		segs = []string{`.field "?untranslated"`}
 	}
 	if nextCompleted != "true" && nextCompleted != "false" {
 		return fmt.Errorf("sasl/plain/plain.go: Mechanism.Next does not return a literal completed flag (untranslated)")
